@@ -57,6 +57,13 @@ def seg_cases(tier):
             if tier == "thorough":
                 cases.append({"id": 100000 + len(cases) + 1, "topo": topo, "nx": [3] * len(nx), "ny": ny, "options": dict(oo), "psi_sign": -1.0} if topo != "LDN" or "psi_core" not in o else
                              {"id": 100000 + len(cases) + 1, "topo": topo, "nx": [3] * len(nx), "ny": ny, "options": dict(oo, psi_core=0.95), "psi_sign": -1.0})
+    # a connected double null whose X-points are not exactly balanced: one separatrix value is used for all four legs, and adjoining
+    # segments still share their boundary value (seeded change C09_cdn_pf_ends_on_own_sep)
+    for o in ({}, {"psi_spacing_separatrix_multiplier": 0.5}):
+        for sign in (1.0, -1.0):
+            oo = dict(psinorm_core=0.9, psinorm_sol=1.1, psinorm_pf=0.95, psinorm_sol_inner=1.08)
+            oo.update(o)
+            cases.append({"id": 100000 + len(cases) + 1, "topo": "CDN", "nx": [2, 2], "ny": [3] * 6, "options": oo, "geometry": "cdn_unbal", "psi_sign": sign})
     return cases
 
 
